@@ -407,11 +407,21 @@ def run_check(ctx, mod):
         repo = os.path.realpath(REPO)
         frames = re.findall(r'File "(%s/[^"]+)", line (\d+), in (\S+)' % re.escape(repo), text)
         if not frames:
-            raise
-        fn, ln, name = frames[-1]
-        ctx.broken.append(dict(kind='tie', what='the implementation raised %s during the exploration (%s:%s %s)'
-                                    % (type(ex).__name__, os.path.relpath(fn, repo), ln, name),
-                               detail=text[-1500:]))
+            # no implementation frame.  On the pinned tree that is a bug of this harness (exit 2).  On a tree that
+            # differs from the pinned one the usual cause is that the harness observes the code through a name the
+            # change renamed or removed (a private attribute such as Monitor._assembler, Assembler._addressing,
+            # ObservableMemory._subject): the code may be perfectly fine, but the tie cannot be established any more
+            # -- a broken tie (reported as such, with the traceback), never a crash and never a failing input.
+            if not getattr(ctx, 'src_changed', None):
+                raise
+            ctx.broken.append(dict(kind='tie', what='the harness could not observe the changed code (%s: %s)'
+                                        % (type(ex).__name__, str(ex)[:200]), detail=text[-1500:]))
+            ctx.note('harness observation failed on the changed tree: %s: %s' % (type(ex).__name__, str(ex)[:160]))
+        else:
+            fn, ln, name = frames[-1]
+            ctx.broken.append(dict(kind='tie', what='the implementation raised %s during the exploration (%s:%s %s)'
+                                        % (type(ex).__name__, os.path.relpath(fn, repo), ln, name),
+                                   detail=text[-1500:]))
     # decide
     known = load_known()
     new, seen = [], []
